@@ -1375,3 +1375,118 @@ class PluginWorldNative(Unit):
 
 UNITS_C18 = UNITS_C18 + [PluginWorldNative]
 UNITS_C19 = UNITS_C19 + [PluginWorldNative]
+
+
+# ------------------------------------------------------------------ bounded companion (C18 / C19): a world of fake SRC parser modules
+FAKE_SRC_PARSERS = {'o1000': 'echo', 'o2000': 'raise', 'o3000': 'none', 'oab00': 'echo', 'bsrc': 'echo'}
+FAKE_SRC_SRC = {
+    'echo': "import json\ndef parseSRCToJson(refcode, w2, w3, w4, w5, w6, w7, w8, w9):\n    return json.dumps({'fake': __name__.split('.')[-1], 'refcode': refcode, 'words': [w2, w3, w4, w5, w6, w7, w8, w9]})\n",
+    'raise': "def parseSRCToJson(refcode, w2, w3, w4, w5, w6, w7, w8, w9):\n    raise RuntimeError('parser bug')\n",
+    'none': "def parseSRCToJson(refcode, w2, w3, w4, w5, w6, w7, w8, w9):\n    return None\n",
+}
+SRC_WORLD_HELPER = r"""
+import sys, os, json, io, contextlib
+fake_root, with_bsrc, calls = sys.argv[1], sys.argv[2] == '1', json.loads(sys.argv[3])
+import srcparsers
+srcparsers.__path__.append(fake_root)
+from srcparsers.osrc.osrc import parseSRCToJson
+out = []
+for c in calls:
+    buf = io.StringIO()
+    try:
+        with contextlib.redirect_stdout(buf):
+            r = parseSRCToJson(c['refcode'], *c['words'])
+        out.append(['ok', r, buf.getvalue()])
+    except BaseException as e:
+        out.append(['raise', type(e).__name__, buf.getvalue()])
+print(json.dumps(out))
+"""
+
+
+class SrcWorldNative(Unit):
+    """bounded companion (C18, C19): a sequence of BMC SRCs handed to the shipped srcparsers.osrc wrapper in one process, against
+    fake component parsers that echo their arguments, raise, return None or do not exist (with and without a hostboot parser):
+    each SRC must reach the parser of its own component (BC codes: the hostboot parser) with its own reference code and words,
+    whatever was decoded before it"""
+    prop = "C18"
+    name = "BMC SRCs against a world of fake SRC parser modules (bounded)"
+    target = "srcparsers.osrc.osrc.parseSRCToJson"
+    kind = 'B'
+    modes = ('assert',)
+
+    def inputs(self, S):
+        if hasattr(S, 'rng'):
+            r = S.rng
+            calls = []
+            for _ in range(r.randrange(1, 7)):
+                comp = r.choice(['10', '20', '30', 'AB', 'ab', 'E5', '77', '10'])
+                head = r.choice(['BD', 'BD', 'BC', 'BC', '11'])
+                refcode = (head + r.choice(['8A', '20', '00']) + comp + '%02X' % r.randrange(256)).ljust(32)
+                calls.append(dict(refcode=refcode, words=['%08X' % r.getrandbits(32) for _k in range(8)]))
+            S.log['calls'] = calls
+            S.log['with_bsrc'] = with_bsrc = r.random() < 0.5
+        else:
+            calls, with_bsrc = S.values['calls'], S.values.get('with_bsrc', False)
+        return dict(calls=calls, with_bsrc=with_bsrc)
+
+    def call_native(self, inp):
+        import subprocess, sys, tempfile, os, json, shutil
+        d = tempfile.mkdtemp(prefix="pyvc_srcw_")
+        try:
+            for name, beh in FAKE_SRC_PARSERS.items():
+                if name == 'bsrc' and not inp['with_bsrc']:
+                    continue
+                os.makedirs(os.path.join(d, name))
+                open(os.path.join(d, name, "__init__.py"), 'w').close()
+                with open(os.path.join(d, name, name + ".py"), 'w') as f:
+                    f.write(FAKE_SRC_SRC[beh])
+            r = subprocess.run([sys.executable] + (['-O'] if sys.flags.optimize else []) +
+                               ['-c', SRC_WORLD_HELPER, d, '1' if inp['with_bsrc'] else '0', json.dumps(inp['calls'])],
+                               capture_output=True, text=True, env=dict(os.environ, PYTHONDONTWRITEBYTECODE='1'), timeout=120)
+            return json.loads(r.stdout.strip().splitlines()[-1]) if r.stdout.strip() else [['crash', r.stderr[-400:], '']] * len(inp['calls'])
+        finally:
+            shutil.rmtree(d, ignore_errors=True)
+
+    def check(self, P, inp, old, out):
+        import json
+        P.prove(out.returned, "the helper process runs")
+        if not out.returned:
+            return
+        ok_all, why = True, None
+        for c, res in zip(inp['calls'], out.value):
+            rc = c['refcode']
+            name = 'bsrc' if rc[:2] == 'BC' else 'o' + rc[4:6].lower() + '00'
+            beh = FAKE_SRC_PARSERS.get(name, 'absent')
+            if name == 'bsrc' and not inp['with_bsrc']:
+                beh = 'absent'
+            if name == 'oe500':
+                beh = 'shipped'
+            if beh == 'raise':
+                ok, exp = res[0] == 'raise' and res[1] == 'RuntimeError', "the component parser's own exception (contained by SRC.parse)"
+            elif res[0] != 'ok':
+                ok, exp = False, "no exception of the wrapper's own"
+            elif beh == 'absent':
+                ok, exp = res[1] == 'null', 'null'
+            elif beh == 'none':
+                ok, exp = res[1] is None, None
+            elif beh == 'echo':
+                exp = dict(fake=name, refcode=rc, words=c['words'])
+                try:
+                    ok = json.loads(res[1]) == exp
+                except Exception:
+                    ok = False
+            else:       # the shipped oe500 parser: a JSON document
+                exp = 'a JSON document from srcparsers.oe500'
+                try:
+                    ok = isinstance(json.loads(res[1]), (dict, type(None)))
+                except Exception:
+                    ok = False
+            ok = ok and res[2] == ""
+            if not ok and why is None:
+                ok_all, why = False, dict(call=c, module=name, behaviour=beh, got=res, expected=exp, with_bsrc=inp['with_bsrc'])
+        P.prove(ok_all, "every SRC reaches the parser module of its own component (BC codes: the hostboot parser) with its own reference code "
+                "and words - or JSON null when there is none - whatever was decoded before it" + ("" if ok_all else " :: %r" % (why,)))
+
+
+UNITS_C18 = UNITS_C18 + [SrcWorldNative]
+UNITS_C19 = UNITS_C19 + [SrcWorldNative]
